@@ -93,11 +93,16 @@ def check(world, tier):
     if site is None:
         a.fail("anchor-lost transfer-call", "cannot find the call of the transfer function in the receive closure")
         return rep
-    sw = result_switch(Rv, site)
-    ok_edges = sw.get(0, [])
-    err_edges = sw.get(1, [])
-    a.need(len(ok_edges), 1, "Ok edge of the transfer result")
-    a.need(len(err_edges), 1, "Err edge of the transfer result")
+    # the outcome of the transfer: the points inside the function called at `site` where its Result is set to Ok / Err. The
+    # path queries below run on the state-sensitive graph, so "after an Ok outcome" follows the Ok states wherever the result is
+    # matched (in the closure itself, or in a helper it is handed to)
+    cfs = [f for f in eng.frame_bodies if len(f) == len(root) + 1 and f[:len(root)] == root and isinstance(f[-1], tuple) and f[-1][0] == "call" and f[-1][3] == site[1]]
+    ok_nodes, err_nodes = set(), set()
+    for cf_ in cfs:
+        ok_nodes |= set(Rv.ret_nodes(cf_, 0))
+        err_nodes |= set(Rv.ret_nodes(cf_, 1))
+    a.need(len(ok_nodes), 1, "Ok outcome of the transfer")
+    a.need(len(err_nodes), 1, "Err outcome of the transfer")
     creates = [e for e in Rv.events if not e.inlined and base_name(e) in ("std::fs::File::create", "std::fs::OpenOptions::open")]
     # clean_on_error symbol(s): captured copy (own upvar) or the worker's field
     clean_syms = set()
@@ -124,10 +129,11 @@ def check(world, tier):
     for e in removes:
         n = base_name(e)
         a.ob(n == "std::fs::remove_file", "cleanup-uses-%s" % n.split("::")[-1], "the receive closure calls %s" % n, e.loc)
-        from_ok = any(e.node in g.reachable([x[1]]) for x in ok_edges)
+        from_ok = e.node in g.reachable(sorted(ok_nodes, key=repr), avoid_nodes=err_nodes)
         a.ob(not from_ok, "remove-on-success", "the uploaded file can be removed although the transfer succeeded", e.loc,
-             sample={"remove_file": e.loc, "reachable from Ok edge": from_ok})
-        a.ob(bool(err_edges) and g.dominated_by_edges((root, 0), e.node, err_edges), "remove-not-behind-err", "remove_file is reachable without the transfer having failed", e.loc)
+             sample={"remove_file": e.loc, "reachable after an Ok outcome": from_ok})
+        a.ob(bool(err_nodes) and e.node not in g.reachable([(root, 0)], avoid_nodes=err_nodes), "remove-not-behind-err",
+             "remove_file is reachable without the transfer having failed", e.loc)
         a.ob(bool(true_edges) and g.dominated_by_edges((root, 0), e.node, true_edges), "remove-ignores-keep-on-error",
              "remove_file is reachable with clean_on_error == false (--keep-on-error would not keep the partial file)", e.loc,
              sample={"dominated by": "clean_on_error == true"})
@@ -140,7 +146,7 @@ def check(world, tier):
     # always reached on Err && clean
     rn = set(e.node for e in removes)
     for te in true_edges:
-        if not any(te[0] in g.reachable([x[1]]) for x in err_edges):
+        if te[0] not in g.reachable(sorted(err_nodes, key=repr)):
             continue
         missed = end in g.reachable([te[1]], avoid_nodes=rn)
         a.ob(not missed, "cleanup-skipped", "with clean_on_error set, a failed upload can end without removing the partial file",
@@ -166,7 +172,7 @@ def check(world, tier):
             c.ob(True, "failure-reaches-Err via %s" % cl.id, "", sample={cl.id: "%d/%d" % (cl.discharged, cl.obligations)})
     # the Err of the transfer function reaches the closure's Err edge: the Err return of TF leads to the err edge only
     errret = set(Rv.ret_nodes(tf, 1))
-    c.need(len(errret), 3, "Err returns of the receive transfer function")
+    c.need(len(errret), 1, "Err returns of the receive transfer function")
     # ---------------------------------------------------------------- d ownership
     renames = [e for e in Rv.events if base_name(e) == "std::fs::rename"]
     # a supersession test: some edge dominating the removal whose condition depends on state shared between
